@@ -89,12 +89,14 @@ def dna(n_min, n_max):
 
 
 @st.composite
-def cds_spec(draw, max_k=5, frameshift_prob=4, ambiguous_prob=6, max_len=10, pad=4):
+def cds_spec(draw, max_k=5, frameshift_prob=4, ambiguous_prob=6, max_len=10, pad=4, overlap_prob=0):
     """CDS layout (1..k blocks, 0-bp gaps allowed) x strand x start offset, frames of one reading frame
     (refmodel.frames_from_offset) optionally with one entry perturbed (programmed frameshift), genome."""
     from harness import refmodel as rm
 
-    blocks = draw(layout(max_k=max_k, allow_empty=False, allow_adjacent=True, allow_overlap=False, max_len=max_len, max_gap=5))
+    # overlapping blocks (bases read twice) are the documented model of a -1 / -2 programmed frameshift
+    blocks = draw(layout(max_k=max_k, allow_empty=False, allow_adjacent=True, allow_overlap=bool(overlap_prob) and draw(st.integers(0, overlap_prob - 1)) == 0,
+                         max_len=max_len, max_gap=5))
     strand = draw(st.sampled_from(["+", "-"]))
     offset = draw(st.sampled_from([0, 0, 1, 2]))
     frames = rm.frames_from_offset(blocks, strand, offset)
@@ -105,6 +107,17 @@ def cds_spec(draw, max_k=5, frameshift_prob=4, ambiguous_prob=6, max_len=10, pad
             i = draw(st.integers(0, len(blocks) - 1))
             frames[i] = (frames[i] + draw(st.sampled_from([1, 2]))) % 3
         shifted = True
+    if any(blocks[i][1] > blocks[i + 1][0] for i in range(len(blocks) - 1)) and not rm.order_representable(rm.cleaned_blocks(blocks, strand, frames)):
+        # trimming a block inside an overlap (start offset / re-synchronisation) can leave remainders whose 5'->3' order a
+        # Location cannot represent (it sorts its blocks by start; C01 findings F1/F25): such layouts keep one uninterrupted frame
+        offset, shifted = 0, False
+        frames = rm.frames_from_offset(blocks, strand, 0)
+    if any(blocks[i][1] > blocks[i + 1][0] for i in range(len(blocks) - 1)) and not rm.codons_representable(rm.frame_walk(blocks, strand, frames)[0], strand):
+        # a codon that straddles the overlap can have two runs that tie on start; the canonical block order of a minus-strand
+        # Location then reads them in the other order (finding F25): the layout is kept without its overlap
+        blocks = [[b[0], min(b[1], blocks[i + 1][0])] if i + 1 < len(blocks) else b for i, b in enumerate(blocks)]
+        offset, shifted = 0, False
+        frames = rm.frames_from_offset(blocks, strand, 0)
     n = blocks[-1][1] + draw(st.integers(0, pad))
     alphabet = "ACGT"
     if draw(st.integers(0, ambiguous_prob - 1)) == 0:
@@ -157,7 +170,7 @@ def simple_qualifiers(draw, max_keys=3):
 
 @st.composite
 def transcript_spec(draw, max_exons=5, coding=None, max_len=10, zero_gap_cds=True, strand=None, start_min=0, start_max=8,
-                    frameshift_prob=8, with_ids=True, qualifiers=True, cds_gap_prob=0, adjacent_exons=False):
+                    frameshift_prob=8, with_ids=True, qualifiers=True, cds_gap_prob=0, adjacent_exons=False, cds_overlap_prob=0):
     """exon layout + optional CDS chosen as a contiguous run [i,j) in transcript coordinates (boundary-biased)"""
     from harness import refmodel as rm
 
@@ -218,6 +231,17 @@ def transcript_spec(draw, max_exons=5, coding=None, max_len=10, zero_gap_cds=Tru
                 m = draw(st.integers(b[0] + 1, b[1] - 2))
                 cds_blocks[k:k + 1] = [[b[0], m], [m + 1, b[1]]]
                 gapped = True
+        overlapped = False
+        if cds_overlap_prob and not gapped and draw(st.integers(0, cds_overlap_prob - 1)) == 0:
+            # -1 / -2 programmed frameshift as BioCantor documents it: two CDS blocks that overlap by one or two bases (read twice)
+            cand = [k for k, b in enumerate(cds_blocks) if b[1] - b[0] >= 3]
+            if cand:
+                k = draw(st.sampled_from(cand))
+                b = cds_blocks[k]
+                m = draw(st.integers(b[0] + 2, b[1] - 1))
+                d = draw(st.sampled_from([1, 1, 2])) if m - 2 > b[0] else 1
+                cds_blocks[k:k + 1] = [[b[0], m], [m - d, b[1]]]
+                overlapped = True
         offset = draw(st.sampled_from([0, 0, 0, 1, 2]))
         frames = rm.frames_from_offset(cds_blocks, strand, offset)
         fs = False
@@ -228,6 +252,8 @@ def transcript_spec(draw, max_exons=5, coding=None, max_len=10, zero_gap_cds=Tru
         sp.update({"cds": cds_blocks, "frames": frames, "offset": offset, "frameshift": fs, "cds_i": i, "cds_j": j})
         if gapped:
             sp["cds_gapped"] = True
+        if overlapped:
+            sp["cds_overlapped"] = True
     if with_ids:
         sp["transcript_id"] = draw(st.one_of(st.none(), IDENT))
         sp["transcript_symbol"] = draw(st.one_of(st.none(), IDENT))
